@@ -312,10 +312,14 @@ RetentionEndObs(pre, v, ds) ==
   IF r = NoNum THEN 0 ELSE since + r
 
 (* the cycle runs at post.clock (= pre.clock: a cycle does not advance time) *)
+(* a server is down when the observer saw it go down (and not come back), or,  *)
+(* where the observer has no record, when the scheduler's own state says so    *)
+IsDown(pre, s, ds) == s \in DOMAIN ds \/ pre.servers[s].state = "down"
+
 C08keep(pre, post, queue, ds) ==
   \A v \in AppNames(pre) :
     (Entitled(pre, post, queue, v) /\ ~pre.apps[v].renew
-       /\ pre.servers[pre.apps[v].server].state = "down"
+       /\ IsDown(pre, pre.apps[v].server, ds)
        /\ RetentionEndObs(pre, v, ds) > post.clock) =>
       post.apps[v].server = pre.apps[v].server
 
@@ -323,7 +327,7 @@ C08expire(pre, post, ds) ==
   \A v \in AppNames(pre) :
     (/\ v \in AppNames(post) /\ pre.apps[v].server # NoServer
      /\ pre.apps[v].server \in SrvNames(pre)
-     /\ pre.servers[pre.apps[v].server].state = "down"
+     /\ IsDown(pre, pre.apps[v].server, ds)
      /\ RetentionEndObs(pre, v, ds) <= post.clock) =>
       post.apps[v].server # pre.apps[v].server
 
